@@ -350,6 +350,9 @@ func (g *Grol) Parse(inp []byte) error {
 	if len(p.Errors()) > 0 {
 		return fmt.Errorf("parse errors: %v", p.Errors())
 	}
+	if p.ContinuationNeeded() { // e.g. unterminated block comment: the tree has missing nodes.
+		return errors.New("parse errors: incomplete input")
+	}
 	g.State.DefineMacros(g.program)
 	numMacros := g.State.NumMacros()
 	if numMacros == 0 {
@@ -420,6 +423,10 @@ func evalOne(s *eval.State, what string, out io.Writer, options Options) (bool, 
 		return false, p.Errors(), what
 	}
 	if p.ContinuationNeeded() {
+		if options.All { // there is no more input to wait for.
+			log.Errf("parser error: incomplete input")
+			return false, []string{"incomplete input"}, what
+		}
 		return true, nil, what
 	}
 	printer := ast.NewPrintState()
